@@ -16,7 +16,7 @@ def run(c):
     model, exe = A.setup(c, "Witverif.Props.C04")
     if not exe: return
     tp = A.tier_params(c)
-    paths, stats = A.gen_worlds(c, tp["n"], tp["depth"], tp["nfuncs"], tp["max_params"])
+    paths, stats = A.gen_worlds(c, tp["n"], tp["depth"], tp["nfuncs"], tp["max_params"], extra_corpus=("abi-casts",))
     cases, failed = A.trace(c, exe, paths)
     if failed: c.broken.append(("abi-trace failed on generated world", str(failed[:2])))
     joined = lambda k: any(x in k for x in ("variant", "option", "result"))
